@@ -47,6 +47,32 @@ Answers(op, src, dst, sameSize) ==
                 e2 == IF ~okTypes THEN {"err:UnsupportedCombinationOfImageTypes"} ELSE {}
             IN  IF e1 \cup e2 = {} THEN {"ok"} ELSE e1 \cup e2
 
+\* ---- containers: an owned image of w x h pixels of type pt (small sizes: native integers)
+CompSize(comp) == CASE comp = "u8" -> 1 [] comp = "u16" -> 2 [] comp = "i32" -> 4 [] comp = "f32" -> 4
+PixelSize(name) == CompSize(PT(name).comp) * PT(name).nc
+TypeOrder == <<"U8", "U8x2", "U8x3", "U8x4", "U16", "U16x2", "U16x3", "U16x4", "I32", "F32", "F32x2", "F32x3", "F32x4">>
+\* typed access answers a view of the image's own size for the image's own pixel type and None for the twelve others
+TypedAccessOK(name, answers) ==
+    /\ Len(answers) = 13
+    /\ \A i \in 1 .. 13 : answers[i] = (IF TypeOrder[i] = name THEN 1 ELSE 0)
+\* e = the observations of one life cycle: new, fill, copy, mutate the copy, typed access, into_vec (owned and borrowed)
+ContainerVerdict(e) ==
+    LET c == e.echo
+    IN  IF e.ret # "ok" THEN "panic"
+        ELSE IF e.len # c.w * c.h * PixelSize(c.pt) THEN "buffer-length"
+        ELSE IF e.zero # 1 THEN "new-image-not-zeroed"
+        ELSE IF e.dims # <<c.w, c.h>> \/ e.ptname # c.pt THEN "accessors"
+        ELSE IF e.copy_eq # 1 THEN "copy-differs"
+        ELSE IF e.indep # 1 THEN "copy-shares-the-buffer"
+        ELSE IF e.vec_eq # 1 THEN "into_vec-differs"
+        ELSE IF ~TypedAccessOK(c.pt, e.typed) \/ ~TypedAccessOK(c.pt, e.typed_mut) THEN "typed-access"
+        ELSE IF "bret" \in DOMAIN e THEN "borrowed-image-rejected"
+        ELSE IF ~TypedAccessOK(c.pt, e.btyped) \/ ~TypedAccessOK(c.pt, e.btyped_mut) THEN "typed-access-borrowed"
+        ELSE IF e.bvec_eq # 1 THEN "into_vec-of-borrowed-differs"
+        ELSE "ok"
+\* Filter::new: accepted iff the support is finite and positive
+FilterNewAnswer(class) == IF class \in {"pos", "tiny", "huge"} THEN "ok" ELSE "err:InvalidSupport"
+
 \* the tables are total and an accepted combination has no admissible error
 TablesOK ==
     \A op \in {"resize", "mul", "div", "mul_inplace", "div_inplace", "map", "map_inplace", "convert"} :
